@@ -65,9 +65,13 @@ def parsers(ctx):
         inner = prog.types[t["in"]]
         if not (inner.get("k") == "str" or inner.get("def") == "std::path::Path"):
             continue
-        if any(prog.types[i].get("def") == hash_ty for i in prog.find_in_type(b.locals[0], lambda x: x.get("k") == "adt")):
-            rt = prog.types[b.locals[0]]
-            if rt.get("k") == "adt" and rt["def"] in ("std::result::Result", "std::option::Option"):
+        rt = prog.types[b.locals[0]]
+        if rt.get("k") == "adt" and rt["def"] in ("std::result::Result", "std::option::Option"):
+            # the value produced on success is (or contains) the hash type - an error type that merely mentions a
+            # hash does not make a function a parser
+            payload = [a for a in rt.get("args", []) if isinstance(a, int)][:1]
+            if payload and any(prog.types[i].get("def") == hash_ty for i in
+                               [payload[0]] + list(prog.find_in_type(payload[0], lambda x: x.get("k") == "adt"))):
                 out.append(b)
     return out
 
@@ -164,8 +168,9 @@ def discharge_call(ctx, b, site, what):
                 continue
             t = b.blocks[l[2]]["term"]
             tgt = prog.local_target(Site(b, l[2], t))
-            # a checked take: callee returns Result<&[u8]> and its length argument is the constant L
-            for a in t["args"]:
+            # a checked take: callee returns the head of a split at its k-th parameter, and that argument is L
+            k = _take_len_param(ctx, tgt) if tgt is not None else None
+            for a in ([t["args"][k - 1]] if k is not None and k - 1 < len(t["args"]) else []):
                 c = a.get("const")
                 if c is None:
                     continue
@@ -193,6 +198,10 @@ def discharge_call(ctx, b, site, what):
             if l[0] == "call" and l[1] in UNWRAP_OK_BY_PRODUCER:
                 return True, "reviewed: " + UNWRAP_OK_BY_PRODUCER[l[1]]
         return False, "unwrap/expect on %s" % tstr
+    if what in ("split_at", "split_at_mut"):
+        if _len_guard(ctx, b, site, args[0], args[1]):
+            return True, "dominated by a comparison that establishes mid <= len"
+        return False, "split point not shown to be within the slice"
     if what == "Index::index":
         # slicing with constant ranges on a value of known length (hex string of a fixed-size array)
         return False, "indexing can panic"
@@ -201,12 +210,65 @@ def discharge_call(ctx, b, site, what):
     return False, "may panic"
 
 
+SPLITS = ("split_at_checked", "split_at", "split_at_unchecked")
+
+
+def _take_len_param(ctx, tgt):
+    """If `tgt` hands back (on its Ok/Some path) the head of a split of a byte slice at one of its own parameters,
+    the index of that parameter: the returned slice is then exactly that many bytes long.  (Whether the split itself
+    can panic is a separate obligation of the split call.)"""
+    from ..prov import TRANSPARENT
+    sl = Slicer(ctx.world, tgt, follow_local=False, transparent=TRANSPARENT | {
+        effects.norm("std::option::Option::<T>::ok_or"), effects.norm("std::option::Option::<T>::ok_or_else")})
+    lv = sl.leaves_of_place({"l": 0, "p": []})
+    res = set()
+    for l in lv:
+        if l[0] == "call" and (l[1] or "").split("::")[-1] in SPLITS and l[3] and l[3][0] == "#0":
+            t = tgt.blocks[l[2]]["term"]
+            mids = sl.leaves_of_operand(t["args"][1])
+            if len(mids) == 1 and list(mids)[0][0] == "param" and not list(mids)[0][2]:
+                res.add(list(mids)[0][1])
+                continue
+            return None
+        if l[0] in ("agg", "const"):
+            continue        # the error value
+        if l[0] == "call" and ctx.prog.local_target(Site(tgt, l[2], tgt.blocks[l[2]]["term"])) is None \
+                and (l[1] or "").split("::")[-1] in ("ok_or", "ok_or_else", "from_residual", "branch"):
+            continue
+        return None
+    return list(res)[0] if len(res) == 1 else None
+
+
 def _is_checked_take(ctx, tgt):
-    """A function that returns a prefix of a slice only after a checked split (split_at_checked / get(..)),
-    with an error return otherwise."""
-    for s in tgt.calls():
-        if (s.path or "").endswith("split_at_checked") or (s.path or "").endswith("split_first") \
-                or (s.path or "").endswith("::get"):
+    return _take_len_param(ctx, tgt) is not None
+
+
+def _len_guard(ctx, b, site, slice_op, mid_op):
+    """Is the call at `site` dominated by the edge of a comparison on which `mid <= slice.len()` holds?"""
+    sl = Slicer(ctx.world, b)
+    want_mid = sl.leaves_of_operand(mid_op)
+    want_slice = sl.leaves_of_operand(slice_op)
+
+    def is_len_of_slice(op):
+        for l in sl.leaves_of_operand(op):
+            if not (l[0] == "call" and (l[1] or "").split("::")[-1] == "len"):
+                return False
+            t = b.blocks[l[2]]["term"]
+            if sl.leaves_of_operand(t["args"][0]) != want_slice:
+                return False
+        return True
+    for sw in b.normal_blocks():
+        c = cfgutil.cmp_true_edge(b, sw)
+        if c is None:
+            continue
+        op, x, y, t_true, t_false = c
+        good = None
+        if is_len_of_slice(x) and sl.leaves_of_operand(y) == want_mid:
+            good = {"Lt": t_false, "Ge": t_true, "Gt": t_true, "Le": None, "Eq": t_true}.get(op)
+        elif is_len_of_slice(y) and sl.leaves_of_operand(x) == want_mid:
+            good = {"Le": t_true, "Lt": t_true, "Gt": t_false, "Ge": None, "Eq": t_true}.get(op)
+        if good is not None and cfgutil.edge_dominates(b, (sw, good), site.bb):
+            # the slice is not re-assigned between the test and the split
             return True
     return False
 
@@ -449,6 +511,121 @@ def rules(ctx, tier):
     raw_typed(ctx, r)
     r.need(4, "two directions x two variants")
     out.append(r.finish())
+    r = Rule("R7", "decoders reject only malformed input: an error exit of a byte decoder is caused by running out of "
+                   "input, an unknown tag or a failing callee - never by a bound on a decoded value that the encoder "
+                   "does not enforce",
+             "a value the encoder writes (a long key, a large count) is refused when it is read back: a committed "
+             "operation cannot be replayed")
+    value_rejections(ctx, r, [b for b in closure_of(ctx, [x for x in tops if not x.raw.get("impl_trait")])])
+    r.need(3, "error exits of the byte decoders")
+    out.append(r.finish())
+    return out
+
+
+def _input_len_leaf(ctx, b, sl, leaves):
+    """All leaves are the length (or emptiness) of a byte slice, not a value decoded from it."""
+    if not leaves:
+        return False
+    for l in leaves:
+        if l[0] == "unknown" and l[1] in ("len", "ptr_metadata"):
+            continue
+        if l[0] == "call" and (l[1] or "").split("::")[-1] in ("len", "is_empty"):
+            continue
+        if l[0] == "const":
+            continue
+        return False
+    return any(l[0] != "const" for l in leaves)
+
+
+def value_rejections(ctx, r, bodies):
+    prog = ctx.prog
+    must = ctx.must(None)
+    enc_consts = None
+    n_exits = 0
+    for b in bodies:
+        rt = prog.types[b.locals[0]]
+        if not (rt.get("k") == "adt" and rt["def"] == "std::result::Result"):
+            continue
+        rf = must.rf(b)
+        err_blocks = set(x for x, k in rf.forwarded.items() if k == "err")
+        ok_blocks = set(x for x, k in rf.forwarded.items() if k != "err")
+        if not err_blocks:
+            continue
+        sl = Slicer(ctx.world, b)
+        for sw in b.normal_blocks():
+            t = b.blocks[sw]["term"]
+            if t["k"] != "switch":
+                continue
+            edges = cfgutil.switch_edges(b, sw)
+            tgts = set(edges.values())
+            if len(tgts) < 2:
+                continue
+            # edges all of whose continuations end in an Err return, while another edge can still succeed
+            def fate(x):
+                reach = cfgutil.reach(b, x)
+                return (bool(reach & err_blocks), bool(reach & ok_blocks))
+            fates = {x: fate(x) for x in tgts}
+            err_only = [x for x, (e, o) in fates.items() if e and not o]
+            can_ok = [x for x, (e, o) in fates.items() if o]
+            if not err_only or not can_ok:
+                continue
+            n_exits += 1
+            c = cfgutil.switch_condition(b, sw)
+            kind = c[0] if c else "?"
+            why = None
+            pl = place_of(t["discr"])
+            dty = prog.types[b.locals[pl["l"]]] if pl is not None and not pl["p"] else {}
+            if kind == "discr":
+                why = "tests whether a step produced a value (end of input / failing callee)"
+            elif kind == "call" and c[1] in ("std::ops::Try::branch",):
+                why = "propagates a callee's error"
+            elif kind == "call" and (c[1] or "").split("::")[-1] in ("is_empty", "is_some", "is_none", "is_ok", "is_err"):
+                why = "tests emptiness / presence"
+            elif kind in ("bool", "const", "other", "call") and dty.get("k") == "prim" and dty.get("s") not in ("bool",):
+                # value dispatch on an integer read from the input: the catch-all arm is the unknown-tag error
+                listed = [x for v, x in t["targets"]]
+                if all(x not in err_only for x in listed):
+                    why = "tag dispatch: only the catch-all arm is an error"
+            elif kind == "cmp":
+                la = sl.leaves_of_operand(c[2])
+                lb = sl.leaves_of_operand(c[3])
+                if _input_len_leaf(ctx, b, sl, la) or _input_len_leaf(ctx, b, sl, lb):
+                    why = "compares against the amount of input left"
+                else:
+                    consts = set(l[1] for l in (la | lb) if l[0] == "const")
+                    if enc_consts is None:
+                        enc_consts = _encoder_bounds(ctx)
+                    if consts and consts <= enc_consts:
+                        why = "the same bound is enforced by an encoder"
+            r.check(why is not None, "err-exit:%s" % (kind,), b,
+                    "%s: error exit at %s:%d %s" % (b.path.split("::")[-1], b.file, b.blocks[sw]["span"]["line"], why),
+                    "%s rejects its input at %s:%d on a condition (%s) that is neither end-of-input, an unknown tag "
+                    "nor a failing callee, and no encoder enforces the same bound: something the encoder writes "
+                    "cannot be read back" % (b.path, b.file, b.blocks[sw]["span"]["line"], kind),
+                    "%s:%d" % (b.file, b.blocks[sw]["span"]["line"]))
+    r.ok("scan", None, "%d bodies, %d error exits decided by a branch" % (len(bodies), n_exits))
+
+
+def _encoder_bounds(ctx):
+    """Constants an encoder compares a length/value against on the way to an Err return."""
+    prog = ctx.prog
+    must = ctx.must(None)
+    out = set()
+    for e in _encoders(ctx):
+        for b in closure_of(ctx, [e]):
+            rt = prog.types[b.locals[0]]
+            if not (rt.get("k") == "adt" and rt["def"] == "std::result::Result"):
+                continue
+            rf = must.rf(b)
+            if not any(k == "err" for k in rf.forwarded.values()):
+                continue
+            sl = Slicer(ctx.world, b)
+            for sw in b.normal_blocks():
+                c = cfgutil.switch_condition(b, sw)
+                if c and c[0] == "cmp":
+                    for l in sl.leaves_of_operand(c[2]) | sl.leaves_of_operand(c[3]):
+                        if l[0] == "const":
+                            out.add(l[1])
     return out
 
 
